@@ -7,5 +7,11 @@ CHECKS = {
         "Trusts: Coq kernel, extraction (ExtrOcamlBasic), OCaml glue, Python harness and its generators; Orbax save/restore as executed; wall-clock fields ignored. Closed under the global context (no axioms).",
     ),
 }
+CHECKS["C02"] = (
+    "DESIGN.md §2 C02",
+    "Coq proof (ring-buffer invariant over the append-only write history, by induction over all addition histories; multi-task refinement to per-task histories) + model/implementation correspondence on generated op histories",
+    "Theorems for every capacity N >= 1 and every history: length = min(n,N), slots in write order = the last min(n,N) additions, every in-range draw returns a stored recent row, never-written slots lie outside the draw range; multi-task: additions only reach the selected task, batches come from one task that has data. The extracted model is run against ReplayBuffer, LAP, PrioritizedReplayBuffer and MultiTaskReplayBuffer on every run.",
+    "Trusts: Coq kernel, extraction, OCaml glue, Python harness, the scripted generator's coverage of draw ranges; NumPy indexing and dtype casts as executed. No axioms.",
+)
 _PENDING = "check not built yet in this revision (planned: Coq model + correspondence, see DESIGN.md §2)"
 NOT_APPLICABLE = {f"C{i:02d}": _PENDING for i in range(1, 21) if f"C{i:02d}" not in CHECKS}
